@@ -184,6 +184,7 @@ def run(ctx):
     float_expr_layer(ctx, 40 if quick else 160, 8 if quick else 30)
     float32_expr_layer(ctx, 20 if quick else 80, 6 if quick else 20)
     pow_layer(ctx)
+    switch_layer(ctx)
     tables = json.loads(ctx.hook_call(["tables"]))
     g = G(rng, tables["common_type"])
     nrec, ncf = (3, 14) if quick else (10, 24)
@@ -605,6 +606,92 @@ def pow_layer(ctx):
                            % (expr, dict(zip(("da", "db", "dc", "ia", "ib"), vs)), pvf if pvf is not None else pv, cv, want),
                            {"expression": expr, "values": dict(zip(("da", "db", "dc", "ia", "ib"), vs)), "python": pvf if pvf is not None else pv, "cpp": cv,
                             "mathematical": str(want), "model": pkg.yaml()})
+
+
+SWITCH_MODEL = """Lookup: !record
+  fields:
+    items: int32*
+    grid: int32[2, 3]
+    pick: uint32?
+    where: [uint8, uint64]
+    txt: [int32, string]
+  computedFields:
+    pickedItem:
+      !switch pick:
+        uint32 p: items[p]
+        null: items[0]
+    pickedItemPlusOne:
+      !switch pick:
+        uint32 p: items[p] + 1
+        null: 1
+    pickedDirect:
+      !switch pick:
+        uint32 p: p
+        null: 0
+    gridCell:
+      !switch where:
+        uint8 r: grid[r, 1]
+        uint64 c: grid[0, c]
+    gridCellNamed:
+      !switch where:
+        uint8 r: grid[r, 2]
+        _: grid[1, 0]
+    sizeOrNumber:
+      !switch txt:
+        int32 n: n * 2
+        string t: 7
+    nested:
+      !switch pick:
+        uint32 p: items[items[p] - items[p]]
+        null: -1
+
+Pz: !protocol
+  sequence:
+    s: Lookup
+"""
+
+
+def switch_layer(ctx):
+    """`!switch` over optionals and unions with declared pattern variables used as subscripts, operands and not at all: the values of
+    the generated Python against the values read off the source by hand; the generated C++ must compile"""
+    pkg = Package("Csw")
+    pkg.protocols.append(("Pz", [("s", __import__("ymodel").prim("int32"), False)]))
+    gp = genrun.GenPackage(ctx, pkg, "csw", ndjson=False, cpp=True, model_text=SWITCH_MODEL)
+    if not gp.generate():
+        raise RuntimeError("yardl rejected the switch package:\n%s" % gp.gen_out[-1500:])
+    want = {  # (pick, where, txt) -> field -> value;  items = [10, 20, 30], grid = [[1, 2, 3], [4, 5, 6]]
+        ("1", "csw.Uint8OrUint64.Uint8(1)", "csw.Int32OrString.Int32(21)"):
+            {"picked_item": 20, "picked_item_plus_one": 21, "picked_direct": 1, "grid_cell": 5, "grid_cell_named": 6, "size_or_number": 42, "nested": 10},
+        ("None", "csw.Uint8OrUint64.Uint64(2)", "csw.Int32OrString.String('x')"):
+            {"picked_item": 10, "picked_item_plus_one": 1, "picked_direct": 0, "grid_cell": 3, "grid_cell_named": 4, "size_or_number": 7, "nested": -1},
+        ("2", "csw.Uint8OrUint64.Uint8(0)", "csw.Int32OrString.Int32(-4)"):
+            {"picked_item": 30, "picked_item_plus_one": 31, "picked_direct": 2, "grid_cell": 2, "grid_cell_named": 3, "size_or_number": -8, "nested": 10},
+    }
+    prog = ["import sys, json", "import numpy as np", "sys.path.insert(0, %r)" % os.path.join(gp.dir, "python"), "import csw", "out = {}"]
+    for vi, ((pick, where, txt), fields) in enumerate(want.items()):
+        prog.append("r = csw.Lookup(items=[10, 20, 30], grid=np.array([[1, 2, 3], [4, 5, 6]], dtype=np.int32), pick=%s, where=%s, txt=%s)" % (pick, where, txt))
+        for f in fields:
+            prog.append("try:\n    out['%d %s'] = int(r.%s())\nexcept Exception as e:\n    out['%d %s'] = 'ERR:' + type(e).__name__ + ': ' + str(e)[:80]" % (vi, f, f, vi, f))
+    prog.append("print(json.dumps(out))")
+    open(os.path.join(gp.dir, "runs.py"), "w").write("\n".join(prog))
+    rc, o, e = sh([PY_VT, "-W", "ignore", os.path.join(gp.dir, "runs.py")], timeout=300)
+    if rc != 0:
+        ctx.report("switch-python-failed", "the generated Python of the switch package cannot be used: %s" % e.strip()[-200:], {"model": SWITCH_MODEL, "error": e[-1500:]})
+        return
+    res = json.loads(o)
+    for vi, ((pick, where, txt), fields) in enumerate(want.items()):
+        for f, v in fields.items():
+            got = res.get("%d %s" % (vi, f))
+            ctx.case(("switch", f, pick, where, txt), nontrivial=True, sample={"computed_field": f, "pick": pick, "where": where, "txt": txt, "python": got, "expected": v})
+            if got != v:
+                ctx.report("switch-wrong-value", "computed field `%s` (a !switch) with pick=%s, where=%s, txt=%s is %s in generated Python; the value "
+                           "read off the model is %s" % (f, pick, where, txt, got, v),
+                           {"computed_field": f, "pick": pick, "where": where, "txt": txt, "python": got, "expected": v, "model": SWITCH_MODEL})
+    cdir = os.path.join(gp.dir, "cpp")
+    rc, o, e = sh(["g++", "-std=c++17", "-O0", "-w", "-fsyntax-only", "-I", genrun.SHIMS, "-I", "generated", "generated/types.cc"], cwd=cdir, timeout=900)
+    if rc != 0:
+        ctx.report("switch-cpp-compile", "the generated C++ of `!switch` computed fields does not compile: %s" % re.sub(r"\s+", " ", e)[:300],
+                   {"model": SWITCH_MODEL, "error": e[-2000:]})
 
 
 def float32_expr_layer(ctx, n_exprs, n_valsets):
